@@ -111,7 +111,13 @@ func vPoint(strMax int) data.Point {
 	if strMax >= 2 {
 		n = 6
 	}
-	sh := vShapes[vChoose(n)]
+	return vPointShape(vChoose(n))
+}
+
+// vPointShape: an arbitrary storable point whose type and key have the
+// lengths of vShapes[shape].
+func vPointShape(shape int) data.Point {
+	sh := vShapes[shape]
 	p := data.Point{
 		Type:      vFixName(sh[0]),
 		Key:       vFixName(sh[1]),
